@@ -26,6 +26,8 @@ pub struct GenOpts {
     pub query_budget: f64,
     /// never generate legal-but-non-canonical states (the Python constructors canonicalise)
     pub canonical_only: bool,
+    /// the space must have a component the metric ignores (weight 0) next to one it does not
+    pub zero_weight: bool,
 }
 
 fn unit_quat(rng: &mut Xo) -> [f64; 4] {
@@ -84,7 +86,48 @@ fn gen_so3_bounds(rng: &mut Xo, angular_bias: bool) -> Option<([f64; 4], f64)> {
     }
 }
 
+/// A space with at least one component of weight 0 and at least one of positive weight:
+/// the library's distance is then only a pseudo-metric (distinct states at distance 0).
+fn gen_zero_weight_space(rng: &mut Xo, o: &GenOpts) -> SpaceSpec {
+    let mf = o.min_frac;
+    match rng.below(4) {
+        0 => {
+            let mut b = gen_box(rng, 2);
+            b.push(gen_so2_bounds(rng, false).unwrap_or((-PI, PI)));
+            let native = rng.chance(0.5);
+            SpaceSpec::SE2 { weight: 0.0, bounds: b, frac_t: if native { 0.05 } else { pick_frac(rng, mf) }, frac_r: if native { 0.05 } else { pick_frac(rng, mf) }, native }
+        }
+        1 => {
+            let native = rng.chance(0.5);
+            SpaceSpec::SE3 { weight: 0.0, bounds: gen_box(rng, 3), cone: None, frac_t: if native { 0.05 } else { pick_frac(rng, mf) }, frac_r: if native { 0.05 } else { pick_frac(rng, mf) }, native }
+        }
+        _ => {
+            let n = rng.usize_in(2, 3);
+            let zero = rng.below(n as u64) as usize;
+            let mut parts = vec![];
+            let mut weights = vec![];
+            for i in 0..n {
+                // the weighted part is mostly a real-vector block so that worlds have room
+                let pick = if i == zero { rng.below(3) } else { [0, 0, 0, 1, 2][rng.below(5) as usize] };
+                parts.push(match pick {
+                    0 => {
+                        let dim = rng.usize_in(1, 2);
+                        SpaceSpec::RV { dim, bounds: Some(gen_box(rng, dim)), frac: pick_frac(rng, mf) }
+                    }
+                    1 => SpaceSpec::SO2 { bounds: gen_so2_bounds(rng, false), frac: pick_frac(rng, mf) },
+                    _ => SpaceSpec::SO3 { bounds: None, frac: pick_frac(rng, mf) },
+                });
+                weights.push(if i == zero { 0.0 } else { *rng.pick(&[0.5, 1.0, 1.0, 2.0]) });
+            }
+            SpaceSpec::Compound { parts, weights }
+        }
+    }
+}
+
 pub fn gen_space(rng: &mut Xo, o: &GenOpts) -> SpaceSpec {
+    if o.zero_weight {
+        return gen_zero_weight_space(rng, o);
+    }
     let kinds: Vec<&str> =
         if o.space_kinds.is_empty() { vec!["RV", "RV", "SO2", "SO3", "Compound", "SE2", "SE3"] } else { o.space_kinds.clone() };
     let kind = *rng.pick(&kinds);
@@ -204,9 +247,12 @@ pub struct WorldBuild {
     /// provably no valid path at resolution L (C06 clause 2)
     pub sealed: bool,
     pub start_invalid: bool,
+    /// goal predicate additionally requires this of one component
+    pub goal_comp: Option<CompCond>,
 }
 
-pub const FAMILIES: [&str; 10] = [
+pub const FAMILIES: [&str; 11] = [
+    "zero_weight",
     "open",
     "balls",
     "balls",
@@ -234,6 +280,7 @@ pub fn build_world(geo: &mut Box<dyn Geo>, rng: &mut Xo, ext: f64, family: &'sta
             family: fam,
             sealed: false,
             start_invalid: false,
+            goal_comp: None,
         }
     };
     let goal_radius = rng.range(0.03, 0.15) * ext;
@@ -278,7 +325,7 @@ pub fn build_world(geo: &mut Box<dyn Geo>, rng: &mut Xo, ext: f64, family: &'sta
                 return open(geo, rng, "open");
             }
             let fam = if family == "start_in_obstacle" && !start_invalid { "balls" } else { family };
-            WorldBuild { world, start, target, goal_radius, family: fam, sealed: false, start_invalid }
+            WorldBuild { world, start, target, goal_radius, family: fam, sealed: false, start_invalid, goal_comp: None }
         }
         "shell_door" | "sealed_goal" | "sealed_start" => {
             let c = match geo.sample(rng) {
@@ -316,6 +363,7 @@ pub fn build_world(geo: &mut Box<dyn Geo>, rng: &mut Xo, ext: f64, family: &'sta
                 family,
                 sealed: family != "shell_door",
                 start_invalid: false,
+                goal_comp: None,
             }
         }
         "slivers" => {
@@ -352,7 +400,76 @@ pub fn build_world(geo: &mut Box<dyn Geo>, rng: &mut Xo, ext: f64, family: &'sta
                 (Some(s), Some(t)) => (s, t),
                 _ => return open(geo, rng, "open"),
             };
-            WorldBuild { world, start, target, goal_radius, family, sealed: false, start_invalid: false }
+            WorldBuild { world, start, target, goal_radius, family, sealed: false, start_invalid: false, goal_comp: None }
+        }
+        "zero_weight" => {
+            // validity (and, via WorldBuild::goal_comp, the goal) depends on a component the
+            // space metric ignores: states at distance 0 from each other differ in validity
+            let lay = layout(geo.spec());
+            let ws = crate::spaces::comp_weights(geo.spec());
+            let Some(k) = (0..lay.len()).find(|i| ws[*i] == 0.0) else { return build_world(geo, rng, ext, "balls") };
+            let off = crate::spaces::comp_offset(&lay, k);
+            let w = lay[k].width();
+            let comp_of = |s: &St| s[off..off + w].to_vec();
+            // radius scale of component k in its own metric
+            let scale = match lay[k] {
+                Comp::RV(_) => {
+                    let pts: Vec<St> = (0..8).filter_map(|_| geo.sample(rng)).collect();
+                    let mut m: f64 = 0.0;
+                    for a in &pts {
+                        for b in &pts {
+                            m = m.max(crate::spaces::comp_dist(&lay[k], &a[off..off + w], &b[off..off + w]));
+                        }
+                    }
+                    if m > 0.0 { m } else { 1.0 }
+                }
+                _ => PI,
+            };
+            let mut obs = vec![];
+            for _ in 0..rng.usize_in(0, 3) {
+                if let Some(c) = geo.sample(rng) {
+                    obs.push(Obstacle::Ball { c, r: rng.range(0.03, 0.2) * ext });
+                }
+            }
+            for _ in 0..rng.usize_in(1, 2) {
+                if let Some(c) = geo.sample(rng) {
+                    obs.push(Obstacle::CompBall { comp: k, c: comp_of(&c), r: rng.range(0.08, 0.3) * scale });
+                }
+            }
+            let mut world = WorldSpec { obstacles: obs };
+            geo.set_worlds(&[world.clone()]);
+            let (start, mut target) = match (sample_valid(&**geo, rng, 0, &any), sample_valid(&**geo, rng, 0, &any)) {
+                (Some(s), Some(t)) => (s, t),
+                _ => return open(geo, rng, "open"),
+            };
+            // "turn in place": the goal shares every weighted coordinate with the start
+            if rng.chance(0.5) {
+                let keep = comp_of(&target);
+                target = start.clone();
+                target[off..off + w].copy_from_slice(&keep);
+            }
+            let mut goal_comp = None;
+            if rng.chance(0.65) {
+                let r = rng.range(0.05, 0.2) * scale;
+                goal_comp = Some(CompCond { comp: k, c: comp_of(&target), r });
+                // sometimes an obstacle covers part of the goal's component interval, so that
+                // some goal samples are rejected by the checker
+                if rng.chance(0.5) {
+                    let mut c = comp_of(&target);
+                    match lay[k] {
+                        Comp::SO3 => {}
+                        _ => c[0] += r * if rng.chance(0.5) { 1.0 } else { -1.0 },
+                    }
+                    if !matches!(lay[k], Comp::SO3) {
+                        world.obstacles.push(Obstacle::CompBall { comp: k, c, r: r * rng.range(0.5, 0.95) });
+                    }
+                }
+            }
+            geo.set_worlds(&[world.clone()]);
+            if !geo.valid(0, &start) || !geo.valid(0, &target) {
+                return open(geo, rng, "open");
+            }
+            WorldBuild { world, start, target, goal_radius, family, sealed: false, start_invalid: false, goal_comp }
         }
         "goal_invalid" => {
             let mut wb = open(geo, rng, "goal_invalid");
@@ -406,7 +523,7 @@ pub fn build_world(geo: &mut Box<dyn Geo>, rng: &mut Xo, ext: f64, family: &'sta
             if !(gr > 0.0) {
                 return open(geo, rng, "open");
             }
-            WorldBuild { world, start, target, goal_radius: gr, family, sealed: gap.is_none(), start_invalid: false }
+            WorldBuild { world, start, target, goal_radius: gr, family, sealed: gap.is_none(), start_invalid: false, goal_comp: None }
         }
         _ => open(geo, rng, "open"),
     }
@@ -555,11 +672,11 @@ pub fn construct_call(samples: u64) -> CallSpec {
 
 /// The common single-problem scenario: `setup`, (PRM: `construct_roadmap`), `solve`.
 pub fn base(rng: &mut Xo, prop: &str, seed: u64, index: u64, o: &GenOpts) -> Scenario {
-    let space = gen_space(rng, o);
-    let mut geo = geo_for(&space).expect("generated spaces build");
-    let ext = extent(&*geo, rng);
     let fams: Vec<&'static str> = if o.families.is_empty() { FAMILIES.to_vec() } else { o.families.clone() };
     let fam = *rng.pick(&fams);
+    let space = if fam == "zero_weight" { gen_space(rng, &GenOpts { zero_weight: true, ..o.clone() }) } else { gen_space(rng, o) };
+    let mut geo = geo_for(&space).expect("generated spaces build");
+    let ext = extent(&*geo, rng);
     let wb = build_world(&mut geo, rng, ext, fam);
     let kind = o.planner.unwrap_or_else(|| *rng.pick(&PlannerKind::ALL));
     let planner = gen_planner(rng, kind, ext);
@@ -587,7 +704,10 @@ pub fn base(rng: &mut Xo, prop: &str, seed: u64, index: u64, o: &GenOpts) -> Sce
     params.insert("ext".into(), ext);
     params.insert("sealed".into(), if wb.sealed { 1.0 } else { 0.0 });
     params.insert("start_invalid".into(), if wb.start_invalid { 1.0 } else { 0.0 });
-    let sampler = o.goal_sampler.unwrap_or_else(|| *rng.pick(&[GoalSampler::Fixed, GoalSampler::Harness, GoalSampler::Harness]));
+    let mut sampler = o.goal_sampler.unwrap_or_else(|| *rng.pick(&[GoalSampler::Fixed, GoalSampler::Harness, GoalSampler::Harness]));
+    if wb.family == "zero_weight" && sampler != GoalSampler::Planner && rng.chance(0.5) {
+        sampler = GoalSampler::Turn;
+    }
     // legal but non-canonical start: SO(2) components off by whole turns (the state types have
     // public fields and every space primitive accepts any angle)
     let mut wb = wb;
@@ -609,7 +729,7 @@ pub fn base(rng: &mut Xo, prop: &str, seed: u64, index: u64, o: &GenOpts) -> Sce
         worlds: vec![wb.world],
         problems: vec![ProblemSpec {
             starts: vec![wb.start],
-            goal: GoalSpec { target: wb.target, radius: wb.goal_radius, sampler, sampler_seed: rng.u64() % 1_000_000 },
+            goal: GoalSpec { target: wb.target, radius: wb.goal_radius, sampler, sampler_seed: rng.u64() % 1_000_000, comp: wb.goal_comp },
             world: 0,
         }],
         planner,
